@@ -60,6 +60,7 @@ Cap(w) ==
       [] w = "inner" -> "Inner" [] w = "kind" -> "Kind" [] w = "pie" -> "Pie"
       [] w = "first" -> "First" [] w = "second" -> "Second" [] w = "third" -> "Third"
       [] w = "request" -> "Request" [] w = "reply" -> "Reply" [] w = "pear" -> "Pear" [] w = "plum" -> "Plum"
+      [] w = "message" -> "Message"
 Up(w) ==
     CASE w = "foo" -> "FOO" [] w = "bar" -> "BAR" [] w = "baz" -> "BAZ" [] w = "id" -> "ID" [] w = "url" -> "URL"
       [] w = "a" -> "A" [] w = "b" -> "B" [] w = "c" -> "C" [] w = "x" -> "X"
@@ -71,6 +72,7 @@ Up(w) ==
       [] w = "inner" -> "INNER" [] w = "kind" -> "KIND" [] w = "pie" -> "PIE"
       [] w = "first" -> "FIRST" [] w = "second" -> "SECOND" [] w = "third" -> "THIRD"
       [] w = "request" -> "REQUEST" [] w = "reply" -> "REPLY" [] w = "pear" -> "PEAR" [] w = "plum" -> "PLUM"
+      [] w = "message" -> "MESSAGE"
 
 RECURSIVE JoinWith(_, _)
 JoinWith(ws, sep) == IF ws = <<>> THEN "" ELSE IF Len(ws) = 1 THEN ws[1] ELSE ws[1] \o sep \o JoinWith(Tail(ws), sep)
@@ -113,7 +115,9 @@ OneofDecl(n, fields) == [kind |-> "oneof", name |-> n, fields |-> fields]
 \* info: the keys of the info map carried by every option of the enum (P schema.proto Enum.Option.info); the compiled
 \* value annotation is a protobuf map, so more than one key exercises the order in which maps are written (C14, C05)
 EnumDecl(n, options, unspec, prefix) == [kind |-> "enum", name |-> n, options |-> options, unspec |-> unspec, prefix |-> prefix, info |-> <<>>]
-InfoKeys == <<"delta", "alpha", "gamma", "beta", "epsilon">>
+\* <key, value atom>: the values are strings that need escaping in the printed options (quotes and backslash, control
+\* characters and a line break, non-ASCII inside and outside the basic plane); the harness concretises the atoms
+InfoKeys == << <<"delta", "quote">>, <<"alpha", "astral">>, <<"gamma", "ctl">>, <<"beta", "bmp">>, <<"epsilon", "plain">> >>
 ServiceDecl(n, basePath, methods) == [kind |-> "service", name |-> n, basePath |-> basePath, methods |-> methods]
 Method(n, verb, path, request, hasResponse, response) ==
     [name |-> n, verb |-> verb, path |-> path, request |-> request, hasResponse |-> hasResponse, response |-> response]
@@ -135,8 +139,10 @@ ElemType(t) == IF t.k \in {"array", "map"} THEN t.item ELSE t
 (* Positional (minimal) names                                          *)
 (* ------------------------------------------------------------------ *)
 PkgNames == <<"foo.v1", "bar.baz.v1">>      \* R: "any number of dot-separated strings ending in a version"
-ShortOf(p) == IF p = "foo.v1" THEN "foo" ELSE "baz"     \* R: import brings the package in "by the package name ('bar' not 'v1')"
-AliasOf(p) == IF p = "foo.v1" THEN "fz" ELSE "bz"
+\* a third package, only in the base bundle "aliasclash": its short name is the same as that of foo.v1
+ClashPkg == "qux.foo.v1"
+ShortOf(p) == IF p \in {"foo.v1", ClashPkg} THEN "foo" ELSE "baz"     \* R: import brings the package in "by the package name ('bar' not 'v1')"
+AliasOf(p) == IF p = "foo.v1" THEN "fz" ELSE IF p = ClashPkg THEN "qz" ELSE "bz"
 FileNames == <<"a", "b">>
 \* the same declaration names are used in every package (same simple name in two packages must resolve by package)
 DeclNames == <<  <<Name(<<"apple">>, "upper"), Name(<<"avocado">>, "upper"), Name(<<"almond">>, "upper"), Name(<<"apricot">>, "upper")>>,
@@ -157,6 +163,9 @@ MinField(i) == Plain(FieldNames[i], Scalar("string"))
 \* R "Oneof": "all of the properties must be objects"
 MinOption(i) == Plain(FieldNames[i], InlineObject(NoName, <<>>))
 
+ShadowMessage == Name(MessageName(DeclNames[1][4], 1).w \o <<"message">>, "upper")      \* ApricotItemMessage
+ShadowRequest == Name(MethodName(DeclNames[1][4], 1).w \o <<"request">>, "upper")        \* GetApricotRequest
+
 (* ------------------------------------------------------------------ *)
 (* Base bundles                                                        *)
 (* ------------------------------------------------------------------ *)
@@ -172,10 +181,14 @@ Base(b) ==
       \* cross-file references inside one package: file b holds the targets, file a is worked on
       [] b = "twofile" -> [pkgs |-> << Pkg(PkgNames[1], << File("a", <<>>, << ObjectDecl(DeclNames[1][1], <<>>) >>), TargetFile("b", 2) >>) >>]
       \* cross-package references: package 1 holds the targets, package 2's file imports it in the three documented ways
+      \* (package 2 declares its own Apple and already refers to both Apples: a reference must be kept by package, not by name)
       [] b = "twopkg"  -> [pkgs |-> << Pkg(PkgNames[1], << TargetFile("a", 1) >>),
                                        Pkg(PkgNames[2], << File("a", << Import(PkgNames[1], "pkg", "", ""),
                                                                           Import(PkgNames[1], "alias", AliasOf(PkgNames[1]), "") >>,
-                                                                 << ObjectDecl(DeclNames[1][1], <<>>) >>) >>) >>]
+                                                                 << ObjectDecl(DeclNames[1][1], <<>>),
+                                                                    ObjectDecl(DeclNames[1][2],
+                                                                      << Plain(FieldNames[1], Ref("object", PkgNames[2], <<DeclNames[1][1].src>>, "", "qual")),
+                                                                         Plain(FieldNames[2], Ref("object", PkgNames[1], <<DeclNames[1][1].src>>, PkgNames[1], "qual")) >>) >>) >>) >>]
       \* services and topics exist already, so that ONE focus construct reaches every method shape (verb x path pattern x response)
       \* and every field kind inside request / response / topic messages
       [] b = "svc" -> [pkgs |-> << Pkg(PkgNames[1], << File("a", <<>>,
@@ -194,6 +207,23 @@ Base(b) ==
                                                                       EnumDecl(Name(<<"plum">>, "upper"), <<"FIRST">>, FALSE, "") >>) >>),
                                      Pkg(PkgNames[2], << File("a", << Import(PkgNames[1], "protofile", "", "p") >>,
                                                                << ObjectDecl(DeclNames[1][1], <<>>) >>) >>) >>]
+      \* two imported packages with the same short name: foo.v1 by package (short name "foo") and qux.foo.v1 by alias only
+      \* (R: "import <package>:<alias>" brings it in under the alias); both declare the same type names, so a reference
+      \* that resolves to the wrong package still links
+      [] b = "aliasclash" -> [pkgs |-> << Pkg(PkgNames[1], << TargetFile("a", 1) >>),
+                                          Pkg(ClashPkg, << TargetFile("a", 1) >>),
+                                          Pkg(PkgNames[2], << File("a", << Import(PkgNames[1], "pkg", "", ""),
+                                                                             Import(ClashPkg, "alias", AliasOf(ClashPkg), "") >>,
+                                                                    << ObjectDecl(DeclNames[1][1], <<>>) >>) >>) >>]
+      \* user types named like the types the compiler derives for a topic message / a method request in the sub-packages
+      \* (<Name>Message, <Method>Request) and already referred to: the next declaration of the file (position 4, Apricot)
+      \* derives exactly those names in foo.v1.topic / foo.v1.service
+      [] b = "shadow" -> [pkgs |-> << Pkg(PkgNames[1], << File("a", <<>>,
+                            << ObjectDecl(ShadowMessage, <<MinField(1)>>),
+                               ObjectDecl(ShadowRequest, <<MinField(1)>>),
+                               ObjectDecl(DeclNames[1][1],
+                                          << Plain(FieldNames[1], Ref("object", PkgNames[1], <<ShadowMessage.src>>, "", "qual")),
+                                             Plain(FieldNames[2], Ref("object", PkgNames[1], <<ShadowRequest.src>>, "", "qual")) >>) >>) >>) >>]
       \* file-path import (T: protobuild TestImportProtoToJ5Other, README "Packages and Imports")
       [] b = "twopkgfile" -> [pkgs |-> << Pkg(PkgNames[1], << TargetFile("a", 1) >>),
                                        Pkg(PkgNames[2], << File("a", << Import(PkgNames[1], "file", "", "a") >>,
@@ -394,7 +424,9 @@ OptionChoices(b, c, n) ==
               : r \in RefTargets(b, pi, fl, "object") }
 
 \* R "Enum": options; S: Enum alias option -> options
+\* an option whose name ends in UNSPECIFIED is the explicit zero value only in first position; later it is an ordinary option
 EnumOptionChoices(n) == {[e |-> OptionNames[n + 1], rich |-> 0, label |-> ""]}
+                        \cup (IF n >= 1 THEN {[e |-> "LIMIT_UNSPECIFIED", rich |-> 1, label |-> "option-named-unspecified"]} ELSE {})
 
 \* R "Services": basePath, method, httpMethod, httpPath, request (required), response (optional: P file.proto APIMethod.response
 \* "when empty indicates a raw http response"); ":param" path segments name request fields (j5convert/service.go, proto/**/*.j5s)
